@@ -33,7 +33,7 @@ def main():
             R.violation({'kind': 'accept side: theorem C01_%s no longer checks (see ./check C01 for the distinguishing string)' % t, 'coqc': (o + e)[-600:]}, no_input=True)
     R.cov['checker_cmd'] += 'coqc C01_<type>.v (20 generated files, shared with C01); '
     lines = []; meta = []
-    n = 20000 if thorough else 1500
+    n = 100000 if thorough else 1500
     for t in types:
         for b in c01.sample_strings(dfas[t], random.Random(rnd.random()), n):
             lines.append('parse\t%s\t%s' % (t, hexs(b))); meta.append(('in', t, b))
